@@ -349,6 +349,16 @@ def r5_slots(ctx, F, pid="C07"):
         tk = [c for c in live_calls(b) if c.name == "take"]
         ds = [c for c in live_calls(b) if c.name == "destroy"]
         ctx.check(rule, "umount/vacates", len(tk) == 1 and len(ds) == 1, "umount no longer empties the slot and destroys the backend", loc=b.loc())
+        if len(tk) == 1:
+            # ... unconditionally once the mount point is gone: no state test (session initialised, option, ...) may skip it
+            uv = vf.VF(b, inline_depth=0)
+            extra = [(vf.render(c_, b, short=True)[:80], l) for (c_, l, u) in uv.guards(tk[0].bb) if c_[0] != "D"]
+            sts = [c for c in live_calls(b) if c.name == "store" and "arc_swap" in (c.fn or "") and vf.render(uv.call_args(c)[0], b, short=True) == "self.superblocks"]
+            ok = not extra and len(sts) == 1 and b.dominates(tk[0].bb, sts[0].bb) and \
+                not [1 for (c_, l, u) in uv.guards(sts[0].bb) if c_[0] != "D" and (u, l) not in [(u2, l2) for (_, l2, u2) in uv.guards(tk[0].bb)]]
+            ctx.check(rule, "umount/vacates-always", ok,
+                      "umount empties the mount's slot only under %s: otherwise the mount point is gone but its backend stays reachable through "
+                      "inode numbers handed out earlier and the index is never freed" % (extra or "a condition on the publishing store"), loc=tk[0].loc())
         # over-mount vacates the previous slot
         b, w, v = writers["insert_mount_locked"]
         sb = [x for x in w if x[0] == "superblocks"]
@@ -377,6 +387,18 @@ def r5_slots(ctx, F, pid="C07"):
     ctx.check(rule, "mount/slot-mapping-always-set", ok,
               "mount_with_id_mapping allocates slot `%s` but stores its id mapping only conditionally: an unmapped mount inherits the "
               "mapping of the slot's previous occupant" % idx_arg, loc=(mw[0][3].loc() if mw else b.loc()))
+    # (a'') what is stored is the caller's mapping itself: a per-mount mapping, even an identity or empty one, overrides the
+    # global mapping, so rewriting it (filtering, defaulting) changes which translation the mount gets
+    stored = []
+    for x in mw:
+        t = b.succs(x[3].bb)[0]
+        for i, s in enumerate(b.stmts(t)):
+            if s[0] == "=" and s[1] == [x[3].dest[0], "*"]:
+                stored.append(vf.render(v.rvalue(s[2], t, i), b, short=True, vfx=v))
+                break
+    ctx.check(rule, "mount/stores-callers-mapping", stored == ["id_mapping"],
+              "mount_with_id_mapping stores `%s` as the mount's id mapping instead of the `id_mapping` it was given" % (stored[0][:160] if stored else "nothing"),
+              loc=(mw[0][3].loc() if mw else b.loc()), detail=";".join(stored)[:80])
     # (a') the mapping stored for the new occupant is not overwritten while the mount is inserted
     b2, w2, v2 = writers["insert_mount_locked"]
     clobber = [x for x in w2 if x[0] == "mount_id_mappings" and x[1] == "fs_idx"]
